@@ -12,6 +12,11 @@ our own for the LOOP-FREE subset those impls are written in:
   laws.py         the C24 laws, written once; also used as the assumed contract on tuple component
                   types and to judge the real CLI's answers in replay.
 
+  vcarray.py      (C26) imperative evaluator for the loop-free members of `extend array<T>` (len, is_empty, push,
+                  pop, swap, remove; bounds syntactically): state (array, length, error) threaded through the
+                  statements, primitives by the contracts proved in units/u5_array, specs = reference list model.
+  arrays.py       (C26) plain-python side: obligations, codegen shape checks, Python list model, replay, fidelity.
+
 This module is imported by tools/check.py under plain python3 and talks to vcgen.py through a
 subprocess that prints JSON.  ABRA_REPO selects the tree that is read (default /repo).
 """
@@ -24,6 +29,7 @@ import time
 import engine as E
 import abra_cli
 from . import laws as LW
+from . import arrays as AR
 
 HERE = os.path.dirname(os.path.abspath(__file__))
 UNIT = "U16-prelude"
@@ -197,7 +203,7 @@ def fidelity():
     if bad:
         raise E.Undecided("u16 fidelity: the evaluator disagrees with the real CLI on %d of %d concrete questions, e.g. %s "
                           "(evaluator says %s, CLI prints %s): generator not trusted" % (len(bad), len(got), bad[0][0], bad[0][1], bad[0][2]))
-    return dict(questions=len(got), disagreements=0)
+    return dict(questions=len(got), disagreements=0, array=AR.fidelity(d.get("array") or {"fatal": "no array cases"}))
 
 
 def selftest():
@@ -226,7 +232,18 @@ def run(tier="quick"):
         out = run_vcgen(tier, scratch=sc.path)
         obs = [to_obligation(r) for r in out["obligations"]]
         obs += codegen_obligations()
-        canary_ok = all(c["status"] == "failed" for c in out["canaries"])
+        obs += AR.obligations(out.get("array"))       # C26: loop-free `extend array<T>` members vs the list model
+        cg = AR.codegen_obligations()
+        lost = [o.id for o in cg if o.status != E.DISCHARGED]
+        if lost:
+            # which instruction runs for self[i], self[i] = v, self.len()/pop()/push() is no longer established
+            for o in obs:
+                if o.id.startswith("C26.prelude.array.") and o.status == E.DISCHARGED and o.backend.startswith("u16-vcgen"):
+                    o.status = E.UNDECIDED
+                    o.detail = "the lowering this proof relies on is not established: %s" % ", ".join(lost)
+        obs += cg
+        canary_ok = (all(c["status"] == "failed" for c in out["canaries"])
+                     and all(c["status"] == "failed" for c in (out.get("array") or {}).get("canaries", [])))
         extra = {}
         if tier == "thorough":
             extra["fidelity_vs_real_cli"] = fidelity()
@@ -243,6 +260,9 @@ def run(tier="quick"):
                 "(their VM arms are verified in U1; only used for `Hash for int/bool/void/tuples` and never needed beyond being functions)",
                 "U16: arrays (`implement Equal/Hash for array<T>`) and `Hash for string` contain `for` loops: outside the loop-free "
                 "subset, NOT claimed by this unit",
+                "U16 arrays (C26): " + AR.PRIM_NOTE + "; the list is shorter than 2^62 elements; `self` is the only array in scope (no aliasing: "
+                "elements are values of an arbitrary type T, modelled by an uninterpreted sort); a runtime error ends the program",
+                "U16 arrays (C26): array.clear, filled, find, contains, sort, sort_by, sort_by_key (loops) are refused by the parser and NOT claimed",
             ],
             trusted_base=[
                 "units/u16_prelude/abra_subset.py: Abra-subset lexer/parser written to mirror abra_core/src/parse.rs (refuses anything else)",
@@ -253,7 +273,9 @@ def run(tier="quick"):
             checker_cmds=[out["cmd"].replace(sc.path, "$SCRATCH")],
             notes=dict(prelude=out.get("prelude"), prelude_sha=out.get("prelude_sha"), canaries=out["canaries"],
                        canary_all_refuted=canary_ok, vcgen=out.get("notes"), wall_s=round(time.time() - t0, 2),
-                       syntactic_obligations=[o.id for o in obs if "syntactic" in o.backend], **extra),
+                       syntactic_obligations=[o.id for o in obs if "syntactic" in o.backend],
+                       array_canaries=(out.get("array") or {}).get("canaries"), array_refused=((out.get("array") or {}).get("notes") or {}).get("refused"),
+                       **extra),
         )
         return obs, info
     finally:
@@ -315,6 +337,14 @@ EXPECT = {'equal': lambda c: c == 0, 'less_than': lambda c: c < 0, 'less_than_or
 def replay(ob):
     """Turn the solver's model into an Abra program, run it on the REAL CLI (tools/abra_cli.py) and judge
     the printed atoms against the law in Python.  True = the real CLI violates the law as Z3 says."""
+    if ob.id.startswith("C26."):
+        def rerun(oid_):
+            arr = run_vcgen("quick").get("array") or {}
+            for r in arr.get("obligations", []):
+                if r["id"] == oid_ and r["status"] == "failed":
+                    return r.get("cex")
+            return None
+        return AR.replay(ob, rerun)
     m = re.fullmatch(r'C24\.prelude\.(\w+)\.(\w+)', ob.id)
     if not m:
         return None, dict(note="no replay for this obligation (syntactic code-shape check)")
